@@ -43,44 +43,66 @@ Section Eval.
   Definition key_kv (ty : string) (id : Z) : list (string * json) :=
     if keyed ty then [("__key", JNum id)] else [].
 
-  (** [ev n ty id]: the entry selection [n] contributes to the result object of object (ty, id).
-      Union values: the fragment of the member, with the union-level field selections (__typename) pushed into
-      it as graphql.PrepareQuery does (an alias already in the fragment is kept once); no fragment for the
-      member renders null (graphql/batch_executor.go:404-418). *)
+  (** The evaluation of one selection, with the recursive knot ([evn]) open, so that every piece has a name. *)
+  Section Gen.
+    Variable evn : node -> string -> Z -> list (string * json).
+
+    Definition evs (l : list node) (t : string) (i : Z) : list (string * json) :=
+      flat_map (fun x => evn x t i) l.
+
+    Definition obj_gen (subs : list node) (t : string) (i : Z) : json := JObj (key_kv t i ++ evs subs t i).
+
+    (** union-level field selections (__typename) that the member's fragment does not already answer *)
+    Definition pushed (body all : list node) : list node :=
+      filter (fun x => is_field x && negb (existsb (String.eqb (n_alias x)) (map n_alias body))) all.
+
+    (** a value of union member [t]: the member's fragment, with the union-level field selections pushed into
+        it as graphql.PrepareQuery does; no fragment for the member renders null
+        (graphql/batch_executor.go:404-418) *)
+    Section Subs.
+      Variable subs : list node.   (* the selection set of the field being evaluated *)
+
+      Section Pick.
+        Variables (t : string) (i : Z).
+        Fixpoint pick_gen (l : list node) {struct l} : json :=
+          match l with
+          | [] => JNull
+          | NFrag on _ body :: r =>
+              if String.eqb on t then
+                JObj (key_kv t i ++
+                      flat_map (fun x => if is_field x && negb (existsb (String.eqb (n_alias x)) (map n_alias body))
+                                         then evn x t i else []) subs ++
+                      evs body t i)
+              else pick_gen r
+          | _ :: r => pick_gen r
+          end.
+      End Pick.
+
+      Fixpoint render_gen (v : aval) {struct v} : json :=
+        match v with
+        | ANull => JNull
+        | AScalar j => j
+        | AList l => JArr (map render_gen l)
+        | ALeaf val tag => leaf_obj val tag subs
+        | ARef t i => obj_gen subs t i
+        | AURef t i => pick_gen t i subs
+        end.
+
+      Definition fval_gen (ty : string) (id : Z) (nm ak : string) : json :=
+        if String.eqb nm "__typename" then JStr ty
+        else if String.eqb nm federation_field then obj_gen subs ty id
+        else if String.eqb ty "Query" then render_gen (w_value w ty id nm ak)
+        else if String.eqb nm "id" then JNum id
+        else if String.eqb nm "org" then JNum (w_org w ty id)
+        else render_gen (w_value w ty id nm ak).
+    End Subs.
+  End Gen.
+
+  (** [ev n ty id]: the entry selection [n] contributes to the result object of object (ty, id). *)
   Fixpoint ev (n : node) (ty : string) (id : Z) {struct n} : list (string * json) :=
     match n with
     | NFrag _ _ _ => []
-    | NField al nm _ ak _ _ subs =>
-        let obj := fun (t : string) (i : Z) => JObj (key_kv t i ++ flat_map (fun x => ev x t i) subs) in
-        let uobj := fun (t : string) (i : Z) =>
-          (fix pick (l : list node) : json :=
-             match l with
-             | [] => JNull
-             | NFrag on _ body :: r =>
-                 if String.eqb on t then
-                   JObj (key_kv t i ++ flat_map (fun x => ev x t i) body ++
-                         flat_map (fun x => if is_field x && negb (existsb (String.eqb (n_alias x)) (map n_alias body))
-                                            then ev x t i else []) subs)
-                 else pick r
-             | _ :: r => pick r
-             end) subs in
-        let render :=
-          fix render (v : aval) : json :=
-            match v with
-            | ANull => JNull
-            | AScalar j => j
-            | AList l => JArr (map render l)
-            | ALeaf val tag => leaf_obj val tag subs
-            | ARef t i => obj t i
-            | AURef t i => uobj t i
-            end in
-        [(al,
-          if String.eqb nm "__typename" then JStr ty
-          else if String.eqb nm federation_field then obj ty id
-          else if String.eqb ty "Query" then render (w_value w ty id nm ak)
-          else if String.eqb nm "id" then JNum id
-          else if String.eqb nm "org" then JNum (w_org w ty id)
-          else render (w_value w ty id nm ak))]
+    | NField al nm _ ak _ _ subs => [(al, fval_gen ev subs ty id nm ak)]
     end.
 
   Definition eval_obj (ty : string) (id : Z) (sels : list node) : json :=
@@ -295,6 +317,14 @@ Section Exec.
                        end) ks
     end.
 
+  (** the coordinator's own result: __typename of the root object for the selections the planner left with
+      it (everything else it holds, the _federation key selection, is never executed) *)
+  Definition root_typenames (ty : string) (sels : list node) : list (string * json) :=
+    flat_map (fun n => match n with
+                       | NField al nm _ _ _ _ _ => if String.eqb nm "__typename" then [(al, JStr ty)] else []
+                       | NFrag _ _ _ => []
+                       end) sels.
+
   (** one sub-plan stitched into the current results (executor.go:356-406) *)
   Definition stitch (run_sub : option (list json) -> option (list json)) (is_coordinator : bool)
              (path : list step) (cur : list json) : option (list json) :=
@@ -326,7 +356,7 @@ Section Exec.
     match p with
     | Plan _ svc ty sels after =>
         let coord := String.eqb svc coordinator in
-        let own := if coord then Some [JObj []] else run_on_service svc ty sels keys in
+        let own := if coord then Some [JObj (root_typenames ty sels)] else run_on_service svc ty sels keys in
         match own with
         | None => None
         | Some res =>
